@@ -77,10 +77,12 @@ fn one_run(log: &mut EvLog, seed: u64, scanner: bool, thorough: bool) {
         // that vanished and came back as something else without ever being absent is not an observable history)
         let mut changed: Vec<usize> = vec![];
         for _ in 0..nchg {
-            let a = match rng.gen_range(0..5) {
+            let a = match rng.gen_range(0..7) {
                 0 => 0,
                 1 => 125,
                 2 => ts, // a responder at the scanner's own address can never be seen
+                3 => ((ts as u16 + 1) % 126) as u8, // the neighbours of the own address (S78)
+                4 => ((ts as u16 + 125) % 126) as u8,
                 _ => rng.gen_range(0..=125usize) as u8,
             } as usize;
             if changed.contains(&a) {
